@@ -172,6 +172,19 @@ func checkOne(c *mc.Ctx, box orb.Bound, in orb.LineString, open bool) {
 			c.Failf("translation", "translated by (2^20, -2^20+3) the line clips to %v | %s", gs, desc())
 		}
 	}
+	// the same problem scaled by a power of two (exact in float64) must clip to the bit-for-bit scaled pieces
+	for _, k := range []float64{1024, 1.0 / 64} {
+		sl, _ := refgeom.Scale(in, k).(orb.LineString)
+		var gs orb.MultiLineString
+		if open {
+			gs = clip.LineString(refgeom.ScaleBound(box, k), sl, clip.OpenBound(true))
+		} else {
+			gs = clip.LineString(refgeom.ScaleBound(box, k), sl)
+		}
+		if !refgeom.Equal(refgeom.Scale(got, k), gs) {
+			c.Failf("scaling", "scaled by %v the line clips to %v | %s", k, gs, desc())
+		}
+	}
 	// the same line with spare capacity behind it must clip to the same pieces, and nothing may be written there
 	sp := orb.LineString(refgeom.Spare(in))
 	var got2 orb.MultiLineString
